@@ -18,7 +18,7 @@ from sly.lex import Token
 from sly.yacc import YaccProduction as ParsedRule
 
 from flipjump.utils.exceptions import FlipJumpExprException, FlipJumpParsingException
-from flipjump.assembler.inner_classes.expr import Expr, get_minimized_expr
+from flipjump.assembler.inner_classes.expr import Expr, get_minimized_expr, int_to_str
 from flipjump.assembler.inner_classes.ops import (
     get_used_labels,
     get_declared_labels,
@@ -533,7 +533,9 @@ class FJParser(sly.Parser):
             last_line = curr_text.count('\n') + 1
             error_string = f'Syntax Error in {get_position(last_line)}. Maybe missing }} or {{ before this line?'
         else:
-            error_string = f'Syntax Error in {get_position(token.lineno)}, token=("{token.type}", {token.value})'
+            # a NUMBER / STRING token holds an int of any size
+            token_value = int_to_str(token.value) if isinstance(token.value, int) else token.value
+            error_string = f'Syntax Error in {get_position(token.lineno)}, token=("{token.type}", {token_value})'
 
         all_errors += f"{error_string}\n"
         print(error_string)
